@@ -18,7 +18,7 @@ CLAIMS = {
          "mutually inverse (exhaustive); var/level unit discipline of the exporter/importer; no edge leaked on importer error "
          "paths; MIR taint analysis of the importer: no number decoded from the file reaches an index, subtraction or allocation size "
          "without a dominating range check or checked/clamping operation; id-list sortedness checks are strict; no overflow check relies "
-         "on checked_shl; prefix tests have the file buffer as receiver. Tables addressed by manager levels are sized by the manager, not by the file (E-UNITS.sized). The exporter prints variable numbers under .ids and level numbers under .permids (E-DDDMP.fields), numbers levels bottom-up with node ids from 1 and support-variable indices pre-decremented (E-DDDMP.numbering). The reader inverts the writer's binary id / variable codes over a small exhaustive domain, payload numbers are written exactly for AbsoluteID / RelativeID, mode selection and the complement flag have the documented form (E-DDDMP.bincodes); variable loops start at 0, terminal lines end in ` 0 0` (E-DDDMP.ascii); the importer rejects level >= child level (E-DDDMP.order). Round-trip equality and totality beyond these sinks are not decided.",
+         "on checked_shl; prefix tests have the file buffer as receiver. Tables addressed by manager levels are sized by the manager, not by the file (E-UNITS.sized). The exporter prints variable numbers under .ids and level numbers under .permids (E-DDDMP.fields), numbers levels bottom-up with node ids from 1 and support-variable indices pre-decremented (E-DDDMP.numbering). The reader inverts the writer's binary id / variable codes over a small exhaustive domain, payload numbers are written exactly for AbsoluteID / RelativeID, mode selection and the complement flag have the documented form (E-DDDMP.bincodes); variable loops start at 0, terminal lines end in ` 0 0` (E-DDDMP.ascii); the importer rejects level >= child level (E-DDDMP.order). The header validation of DumpHeader::load is interpreted on 12 well-formed and 22 malformed model headers (accepted with the right variable order and names / rejected with Err, never a panic; E-DDDMP.header); per-node arity, terminal and child-id checks of both node readers (E-DDDMP.noderec); sanitising errors only under `strict` (E-DDDMP.strictmode). Round-trip equality and totality beyond these sinks are not decided.",
          "constant-table extraction from HIR + exhaustive evaluation; unit analysis", "3.9, 4 C15"),
  "C19": ("E-FFI + E-LIN + E-UNITS on oxidd-ffi-c: C symbol <-> Rust operation wiring and operand order, equal export sets of the "
          "three files, from_raw only under ManuallyDrop::new (borrow) or drop (unref), no entry point but the documented one "
